@@ -357,7 +357,7 @@ def workload(chk):
     for p in U.unit_schemas():
         cases.append((os.path.relpath(p, build.REPO), U.read_text(p), os.path.basename(p), ('unit',)))
     from .. import c17_gen
-    n = 40 if quick else 600
+    n = 40 if quick else 2000
     for s in c17_gen.corpus(chk.seed, n):
         cases.append((s.name, s.text(), s.fname, ('generated',) + tuple(sorted(s.tags))))
     for s in c17_gen.probes():
@@ -368,7 +368,7 @@ def workload(chk):
         cases.append((s.name, s.text(), s.fname, ('matrix',) + tuple(sorted(s.tags - set(['matrix'])))))
     for s in c17_multi.rename_order_matrix():
         cases.append((s.name, s.text(), s.fname, ('rename_order',) + tuple(sorted(s.tags - set(['rename_order'])))))
-    for s in c17_multi.random_matrix(chk.seed, 24 if quick else 200):
+    for s in c17_multi.random_matrix(chk.seed, 24 if quick else 800):
         cases.append((s.name, s.text(), s.fname, ('matrix_random',) + tuple(sorted(s.tags - set(['matrix_random'])))))
     cases.sort(key=lambda c: -len(c[1]))
     return cases
